@@ -45,18 +45,22 @@ def at_threshold_record(rng, s, j):
     return gen.build_record(rng, s, j, dt, n, rc, ic, t0=0, gaps=rng.choice([0, 0, 1]), pre=0, post=1)
 
 
-def origins(rng, dt, k):
+def origins(rng, dt, k, n=8):
     out = [0, 3600 * 24 * 365 * 30 // dt * dt]
     # around binade changes of epoch/3600: epoch = 3600 * 2^m
     for m in (17, 18, 19):
         out.append((3600 * 2 ** m) // dt * dt - 3 * dt)
+    # records that straddle an instant where epoch/step, epoch/60 or the epoch itself changes binade
+    for unit in (dt, dt, 60, 1):
+        m = rng.randint(18, 24) if unit == dt else (rng.randint(23, 26) if unit == 60 else rng.randint(29, 31))
+        out.append((unit * 2 ** m) // dt * dt - rng.randint(1, max(1, n - 2)) * dt)
     while len(out) < k:
         out.append(rng.randint(0, 4102444800) // dt * dt)
     return out[:k]
 
 
 def run(ctx):
-    nrec, k = (30, 8) if ctx.tier == "quick" else (300, 40)
+    nrec, k = (30, 10) if ctx.tier == "quick" else (300, 40)
     rng = ctx.rng
     curves_across_origins(ctx, 4 if ctx.tier == "quick" else 60, 3 if ctx.tier == "quick" else 8)
     ob_corr = "flags / intervals / pairing of `spowtd classify` = model classifyAll at Float, at every origin"
@@ -70,9 +74,12 @@ def run(ctx):
         zones = []
         if i % 3 == 0:
             zones = ["Etc/GMT%+d" % z for z in rng.sample([-12, -7, -1, 3, 5, 11], 2)]
-        runs = [(t0, "UTC") for t0 in origins(rng, rec.dt, k)] + [(86400 * 20000 // rec.dt * rec.dt, z) for z in zones]
+        if i % 2:
+            # the level logger's clock is minutes off the rain gauge's (levels are interpolated onto the grid)
+            rec.phase = rng.choice([60, 120, 420, 140, 300, 1000, 1740]) % rec.dt
+        runs = [(t0, "UTC") for t0 in origins(rng, rec.dt, k, rec.n)] + [(86400 * 20000 // rec.dt * rec.dt, z) for z in zones]
         for t0, tz in runs:
-            r2 = gen.Record(rec.dt, t0, rec.rain, rec.level, rec.removed, rec.pre, rec.post)
+            r2 = gen.Record(rec.dt, t0, rec.rain, rec.level, rec.removed, rec.pre, rec.post, phase=rec.phase)
             res = C.run_case(ctx, r2, s, j, tz="UTC" if tz == "UTC" else tz)
             inp = C.replay_input(r2, s, j, tz)
             if res["load"][0] != "ok":
@@ -156,7 +163,7 @@ def replay(ctx, doc):
     out = []
     for x in (a, b):
         r = x["record"]
-        rec = gen.Record(r["dt"], r["t0"], r["rain"], r["level"], set(r["removed"]), r["pre"], r["post"])
+        rec = gen.Record(r["dt"], r["t0"], r["rain"], r["level"], set(r["removed"]), r["pre"], r["post"], phase=r.get("phase", 0))
         res = C.run_case(ctx, rec, x["s"], x["j"], tz=x.get("timezone", "UTC"), want_model=False)
         out.append((res["loaded"]["grid_time"][0][0], res["impl"]))
     sh = shift_tables(out[0][1], out[1][0] - out[0][0])
